@@ -393,6 +393,23 @@ func checkRegistryConsistencyInner(r lint.Registry, bad func(sig, msg string)) {
 			bad("bysource-partition|"+l.Name, fmt.Sprintf("lint reached %d times through BySource, want 1", perSrc[l.Kind+"|"+l.Name]))
 		}
 	}
+	// each per-kind lookup: its own Names() is sorted and is exactly the names of its own lints
+	for kind, ns := range map[string][]string{"cert": r.CertificateLints().Names(), "crl": r.RevocationListLints().Names(), "ocsp": r.OcspResponseLints().Names()} {
+		for i := 1; i < len(ns); i++ {
+			if !(ns[i-1] < ns[i]) {
+				bad("kind-names-order|"+kind, fmt.Sprintf("per-kind Names() not strictly increasing at %q, %q", ns[i-1], ns[i]))
+			}
+		}
+		want := 0
+		for _, l := range all {
+			if l.Kind == kind {
+				want++
+			}
+		}
+		if len(ns) != want {
+			bad("kind-names-count|"+kind, fmt.Sprintf("per-kind Names() has %d entries, the listing %d lints", len(ns), want))
+		}
+	}
 	// each per-kind lookup: its own Sources() is exactly the set of sources of its own lints
 	kindSources := map[string]lint.SourceList{"cert": r.CertificateLints().Sources(), "crl": r.RevocationListLints().Sources(), "ocsp": r.OcspResponseLints().Sources()}
 	for kind, sl := range kindSources {
